@@ -185,6 +185,25 @@ def main():
             s.add(h)
         if str(s.check()) == "unsat":
             vacuous.append(key)
+    # ---- exit-path reachability: a contract all of whose sampled normal exits have inconsistent hypotheses proves nothing
+    from pyvc.state import Goal as _Goal
+    by_contract = {}
+    for g in goals:
+        if g.kind == "post" and ":post:" in g.name:
+            path = g.name.rsplit("@", 1)[-1]
+            by_contract.setdefault(g.func, {}).setdefault(path, g)
+    probes = []
+    for fk, paths in by_contract.items():
+        for path, g in list(paths.items())[:6]:
+            pg = _Goal("reach:%s@%s" % (fk, path), g.hyps, z3.BoolVal(False), "reach", fk)
+            probes.append(pg)
+    if probes:
+        smt.discharge(probes, timeout_s=3, stages=("z3-abs",))
+    unreachable = sorted(fk for fk in by_contract
+                         if all(pg.status == "unsat" for pg in probes if pg.func == fk))
+    reach_report = {"contracts_with_a_reachable_exit": len(by_contract) - len(unreachable), "contracts_probed": len(by_contract),
+                    "exit_paths_probed": len(probes), "all_exits_inconsistent": unreachable}
+    vacuous += ["all exits unreachable: " + fk for fk in unreachable]
     open_goals = [g for g in goals if g.status != "unsat"]
     flaky = [g for g in open_goals if baseline.get(g.name) == smt.goal_hash(g)]
     changed = [g for g in open_goals if baseline.get(g.name) != smt.goal_hash(g)]
@@ -331,6 +350,7 @@ def main():
         "inlined_functions": sorted(E.inlined),
         "contracts_used_at_call_sites": sorted(E.used_contracts),
         "vacuous_preconditions": vacuous,
+        "exit_path_reachability": reach_report,
         "paths": E.npaths,
         "evaluations": (bounded or {}).get("evaluations", 0) if bounded and not bounded.get("crash") else 0,
         "distinct_nontrivial": (bounded or {}).get("distinct_nontrivial", 0) if bounded and not bounded.get("crash") else 0,
@@ -351,6 +371,8 @@ def main():
         os.makedirs(os.path.join(HERE, "evidence"), exist_ok=True)
         json.dump(ev, open(os.path.join(HERE, "evidence", a.prop + ".json"), "w"), indent=1, default=str)
     # ---- report
+    print("reachability: %d of %d contracts with postconditions have a consistent normal exit (%d exit paths probed)" % (
+        reach_report["contracts_with_a_reachable_exit"], reach_report["contracts_probed"], reach_report["exit_paths_probed"]))
     print("%s tier=%s: %d/%d obligations discharged (%s), %d contracts, %d out of reach, bounded evaluations=%s, %.1fs"
           % (a.prop, a.tier, n_dis, n_ob, by_solver, len(per_contract), len(out_of_reach), cov["evaluations"], time.time() - t0))
     for o in out_of_reach:
